@@ -13,8 +13,12 @@ TNext == l <= Len(Trace) /\ l' = l + 1
 TSpec == TInit /\ [][TNext]_l
 Accepted == TLCGet("stats").diameter - 1 = Len(Trace)
 Ev == Trace[l - 1]
-\* batch line over project file over documented default
-Effective(e) == IF e.hasArg THEN e.arg ELSE IF e.hasFile THEN e.file ELSE e.def
+\* batch line over project file over documented default.  Two keys have a DERIVED default that readConfig fills in when
+\* the value that line and file leave is empty (ResultFileExt: the extension of the effective result style, WeatherFolder):
+\* an empty value given on the line is a given value like any other - it overrides the file and the default then applies
+Derived(e) == "derived" \in DOMAIN e /\ e.derived
+Given(e) == IF e.hasArg THEN e.arg ELSE IF e.hasFile THEN e.file ELSE IF Derived(e) THEN "" ELSE e.def
+Effective(e) == IF Derived(e) /\ Given(e) = "" THEN e.def ELSE Given(e)
 C14_Precedence == l > 1 => Ev.eff = Effective(Ev)
 Alias == [l |-> l, event |-> IF l > 1 THEN Ev ELSE <<>>]
 =============================================================================
